@@ -180,7 +180,7 @@ def consume(gen, case, on_abandon=None):
 
 
 def build(case, flt):
-    if case.get("kill") is not None:
+    if case.get("kill") is not None and not inprocess(case):      # no worker process on the in-process path
         flt.kill_at = (case.get("base", 0) + case["kill"],)
     if case.get("wrap"):
         from coba.multiprocessing import CobaMultiprocessor
@@ -358,7 +358,12 @@ def _run_real_here(case, timeout=60.0):
                 if name.endswith(".calls"):
                     with open(os.path.join(logdir, name)) as f:
                         calls[name[:-6]] = len([ln for ln in f.read().split("\n") if ln.strip()])
-            runs.append({"outs": outs, "outcome": outcome, "trace": None, "calls": calls, "choices": [], "escaped": [], "steps": 0})
+            import multiprocessing as _mp
+            import time as _time
+            _time.sleep(0.3)
+            leaked = len(_mp.active_children())      # worker processes still alive after the call returned (parked daemons)
+            runs.append({"outs": outs, "outcome": outcome, "trace": None, "calls": calls, "choices": [], "escaped": [], "steps": 0,
+                         "leaked": leaked})
             if outcome["kind"] == "hang":
                 break
         return {"runs": runs} if case.get("history") else runs[0]
@@ -510,8 +515,13 @@ def correspond(case, run, driver):
         fails.append(F("A", "CobaMultiprocessor wrapper: implementation %s %s, model wrapOutcome %s" % (got, oc, json.dumps(ans["wrapped"])), "A:wrapper"))
     elif mo["kind"] != oc["kind"] or mo["outs"] != got or (mo["kind"] == "raised" and not err_matches(case, mo["err"], oc)):
         fails.append(F("A", "outcome differs: implementation %s %s, model %s" % (got, oc, json.dumps(mo)), "A:outcome"))
+    names_ = [a["a"] for a in run["trace"]]
+    if "cAbandon" in names_:
+        own = [n_ for n_ in names_[names_.index("cAbandon") + 1:] if n_ in ("mEvent", "cGet", "drainIn", "drainOut", "mDone", "cAbandon")]
+        if not own or own[-1] != "mDone" or any(n_ not in ("drainIn", "drainOut", "mDone") for n_ in own):
+            fails.append(F("A", "after close() the caller's own steps are not `drain*, return` (model finishSeq): %s" % own, "A:abandon-finish"))
     if not ans["mu_decreasing"]:
-        fails.append(F("C", "the termination measure did not decrease on some step of an accepted trace", "C:variant"))
+        fails.append(F("C", "the termination measure did not decrease on some step of an accepted trace, or finishSeq is not a schedule at the abandon state", "C:variant"))
     if not ans["spec_holds"]:
         fails.append(F("C", "model final state violates the spec although the theorems' hypotheses hold: %s" % json.dumps(ans["state"]), "C:spec"))
     return fails, ans
@@ -581,25 +591,28 @@ class C08(Property):
     quick_n = 2000
     thorough_n = 30000
     search_n = 1500
-    case_timeout = 300
+    case_timeout = 900
     workers = 8
     rule = ("a case = (n_processes 1..4, maxtasksperchild 0..3 (5 for long streams), 0-10 items (up to 50 for long streams stopped early) each with 0-3 outputs, "
             "optionally an error of 15 kinds raised after them (generator or plain filter), optionally an item that cannot be pickled, optional early abandon after "
             "k outputs, optional CobaMultiprocessor wrapper, optionally a HISTORY of 2-3 calls on the same Multiprocessor object under one scheduler; schedule = PRNG "
             "seed + role/lineage weights + stickiness or an explicit choice prefix (DFS)); run on the REAL Multiprocessor.filter under the baton scheduler (or with real "
             "spawned processes), every call's trace replayed through the Lean enabled/step (extended by the put-timeout action) from startCall/init, outcome compared "
-            "incl. the wrapper's translation; non-trivial = at least 2 items and a trace of at least 12 steps (or a real-process run or a history); distinct by canonical JSON")
+            "incl. the wrapper's translation; DFS cases with `por` enumerate all schedules up to commutation of independent steps (sleep sets over Coba.C08.indep, "
+            "table cross-checked with the driver); a few cases kill a worker process mid-item; non-trivial = at least 2 items and a trace of at least 12 steps (or a real-process run or a history); distinct by canonical JSON")
     trusted_base = [
         "thread-based fakes for spawn_context.Queue/Event, MyProcessLine and ThreadLine (harness/props/c08_sched.py): FIFO queues, bounded put blocks, put/get with a "
         "finite timeout give up when the scheduler says so, join blocks until the thread/process body has ended, a spawned process works on a pickled private copy of "
         "its line; scheduling granularity = queue put/get/get_nowait, event wait, join, thread start/exit, callback entry; each callback body is one atomic step "
         "(CPython's GIL: `_n_procs -= 1`, list.append)",
         "real OS processes, pipes, multiprocessing.Queue feeder threads and pickling are exercised only by the real-process cases (outcome compared)",
+        "the sleep-set enumeration treats a scheduling segment as a set of model actions and relies on theorem step_comm for their commutation; segments "
+        "without a model action are treated as dependent on everything",
         "NOT in the transition system: exitcode != 0 / _main_err (crashed interpreter, missing __main__ guard), read_wait=True (wait keys), cloudpickle; "
         "the wrapper's logger/cacher/store marshalling is C01's",
     ]
     assumptions = ["n_processes >= 1", "the wrapped filter's outputs and errors are picklable",
-                   "theorems are about the code with fixes C08-per-call-state and C08-wrapper-runtimeerror applied (open findings C08-F4, C08-F3 on the current tree)"]
+                   "a worker process that is KILLED is outside the theorems (fault, not `the filter raises`): open finding C08-F5 records what the code does then"]
     partial_theorems = {}
 
     # ---- generators
@@ -839,6 +852,8 @@ class C08(Property):
             cs.append({"mode": "sched", "n": n, "m": m, "items": [one(i) for i in range(6)], "abandon": k, "sched": P("uniform")})
         # wrapper
         cs.append({"mode": "sched", "n": 2, "m": 1, "items": [one(i) for i in range(4)], "abandon": None, "wrap": True, "sched": P("uniform")})
+        # complete (up to commutation) enumeration of a tiny configuration by sleep sets
+        cs.append({"mode": "dfs", "por": True, "n": 1, "m": 1, "items": [one(0)], "abandon": None, "budget": 400})
         # exhaustive small scopes
         cs.append({"mode": "dfs", "n": 1, "m": 1, "items": [one(0)], "abandon": None, "budget": 60, "depth": 30, "skip": 0})
         cs.append({"mode": "dfs", "n": 2, "m": 1, "items": [{"outs": [0], "err": "ValueError", "gen": True}, one(1)], "abandon": None, "budget": 40, "depth": 10, "skip": 0})
@@ -915,7 +930,12 @@ class C08(Property):
         one = lambda v: {"outs": [v], "err": None, "gen": False}
         cfgs = [(1, 1, [one(0)]), (1, 2, [one(0)]), (1, 1, [{"outs": [], "err": "ValueError", "gen": False}]),
                 (1, 1, [{"outs": [], "err": None, "gen": True}])]
-        return [{"mode": "dfs", "n": n, "m": m, "items": items, "abandon": None, "budget": 8000, "depth": 400, "skip": 0} for n, m, items in cfgs]
+        plain = [{"mode": "dfs", "n": n, "m": m, "items": items, "abandon": None, "budget": 8000, "depth": 400, "skip": 0} for n, m, items in cfgs]
+        # sleep-set enumeration (complete up to commutation of independent steps, theorem step_comm): beyond n=1 / one item
+        bad = {"outs": [], "err": "ValueError", "gen": False}
+        por = [(1, 1, [one(0)]), (1, 1, [one(0), one(1)]), (1, 2, [one(0), one(1)]), (2, 0, [one(0)]), (2, 1, [one(0)]), (2, 1, [bad]),
+               (1, 1, [bad, one(1)]), (2, 0, [one(0), one(1)]), (2, 1, [one(0), one(1)]), (2, 1, [bad, one(1)])]
+        return [{"mode": "dfs", "por": True, "n": n, "m": m, "items": items, "abandon": None, "budget": 60000, "wall": 780} for n, m, items in por[::-1]] + plain
 
     # ---- evaluation
     def evaluate(self, case, driver):
@@ -952,6 +972,8 @@ class C08(Property):
             tags.append("shape:fewer-items-than-processes")
         if case["m"] > 0 and case["items"] and len(case["items"]) % case["m"] == 0:
             tags.append("shape:multiple-of-m")
+        if run.get("leaked") is not None:
+            tags.append("leaked-processes:%s:%s" % (run["outcome"]["kind"], "0" if run["leaked"] == 0 else "1+"))
         if case.get("kill") is not None:
             tags.append("fault:worker-killed")
         if case.get("head") and case["items"]:
@@ -972,7 +994,7 @@ class C08(Property):
             tags.append("policy:" + ((case.get("sched") or {}).get("policy") or {}).get("name", "uniform").split("+")[0])
             tags += trace_tags(case, run)
         nontrivial = mode == "real" or (len(case["items"]) >= 2 and len(run["trace"] or []) >= 12)
-        impl = {"outs": run["outs"], "outcome": run["outcome"], "calls": run["calls"], "trace_len": len(run["trace"] or []),
+        impl = {"outs": run["outs"], "outcome": run["outcome"], "calls": run["calls"], "leaked_processes": run.get("leaked"), "trace_len": len(run["trace"] or []),
                 "trace": (run["trace"] or [])[:400]}
         return {"fails": fails, "nontrivial": nontrivial, "tags": tags, "impl": impl,
                 "model": None if model is None else {k: model.get(k) for k in ("outcome", "steps", "done", "mu0", "outs", "err")}}
@@ -1027,7 +1049,9 @@ class C08(Property):
         budget = case.get("budget", 2000)
         base = dict(case, mode="sched", sched={"det": True})
         frames, runs, pruned, complete, agg, pairs = [], 0, 0, False, None, []
-        while runs < budget:
+        import time as _t
+        t_end = _t.time() + case.get("wall", 240)
+        while runs < budget and _t.time() < t_end:
             ch = S.PorChooser(frames)
             run = run_scheduled(base, chooser=ch)
             runs += 1
@@ -1066,7 +1090,7 @@ class C08(Property):
                 agg["fails"].append(F("A", "the harness' independence table differs from Coba.C08.indep on %s" % bad[:5], "A:indep-table"))
         agg["tags"] = [t for t in agg["tags"] if not t.startswith("mode:")] + [
             "mode:por", "por:runs:%s" % ("<100" if runs < 100 else "<1000" if runs < 1000 else "<10000" if runs < 10000 else "10000+")] + (
-            ["por:complete"] if complete else ["por:budget-exhausted"])
+            ["por:complete"] if complete else ["por:stopped-at-failure"] if agg["fails"] else ["por:budget-exhausted"])
         agg["nontrivial"] = True
         agg.setdefault("impl", {}).update({"por_runs": runs, "por_pruned": pruned, "por_complete": complete})
         return agg
